@@ -89,6 +89,13 @@ PROPS = {
         explanation="Theorems: the declaration the real writer emits for SPDX 2.3 and CycloneDX 1.3/1.4/1.5 JSON (table regenerated from the writer on every run) is detected as exactly that format; a format is reported only when the top-level declaration states its type and version, and the reported constant's Type/Version/Encoding accessors (generated from the code) agree with the declaration; error otherwise (exact characterisation); tag-value fall-back reports only for a line carrying both the tag and the version; totality; the stream is left at offset 0. Tie (partial: decoding bytes into the declaration is encoding/json's, layout independence is validated, not proved): SniffReader observed on writer output x formats x indentations x re-encodings, near-miss declarations, fragment texts and binary input; result and Seek offset compared with Model/Sniff.v.",
         assumptions=["modelled: pkg/formats/sniffer.go decision logic and rewind (Model/Sniff.v); encoding/json decoding of the top-level object is an input of the model", "strings.EqualFold against the word cyclonedx is modelled by ASCII case folding (exact for this word)"],
     ),
+    "C17": dict(
+        props_v="Props/C17.v",
+        corr_v=["Corr/CheckC17.v"],
+        n_quick=120, n_thorough=3000,
+        explanation="PARTIAL (a theorem cannot exhibit the Go scheduler or memory model). Theorems: the access table extracted from the Go sources on every run (which package-level variable each function of reader/writer/formats reads, writes, calls atomically or publishes, and under which mutex) satisfies the lock discipline; for any table that passes, any two thread accesses to the same variable with a write are both atomic sync operations or hold a common mutex one of them exclusively, and no package-level object is published into instances; sequential registry semantics (lookup after register/unregister, independence across formats). Tie: regenerated table (syntactic, fail-closed extractor); sequential registry histories vs the registry model; oracle: race-detector build stressing every entry-point mix from 16 goroutines with per-call comparison against sequential results.",
+        assumptions=["the lockset extractor is syntactic (trusted to see every access to the listed package-level variables; aborts on constructs it does not understand)", "mutual exclusion of sync.RWMutex, atomicity of sync.Map/sync.Once methods and the Go memory model are trusted, not modelled", "data races in code reached through instances (not package-level state) are visible only to the race-detector stress"],
+    ),
 }
 
 NOT_APPLICABLE = {}
